@@ -99,7 +99,8 @@ Inductive hx :=
 | XGet0 (x : string)                       (* (get x 0) *)
 | XMacro1 (name : string) (a : hx)         (* a core operator macro applied to one / two forms *)
 | XMacro2 (name : string) (a b : hx)
-| XReduce (f : opfn) (xs : hx) (init : option hx)
+| XReduce (f : opfn) (xs : hx)               (* (reduce f xs) *)
+| XReduce3 (f : opfn) (xs init : hx)         (* (reduce f xs init) *)
 | XFoldr (f : opfn) (xs : hx)
 | XTupCat1 (a rest : hx)                   (* (+ #(a) rest) *)
 | XTupCat2 (a b rest : hx)                 (* (+ #(a b) rest) *)
